@@ -25,12 +25,19 @@ def run_driver(exe, args, out_prefix, timeout=3600, env=None):
         raise DriverError('driver timeout: ' + ' '.join(cmd))
     if p.returncode != 0:
         raise DriverError('driver failed (%d): %s\n%s' % (p.returncode, ' '.join(cmd), p.stderr[-2000:]))
-    offered = written = 0
+    offered = written = swept = disagreements = 0
     for ln in p.stderr.splitlines():
         if ln.startswith('vh: offered='):
             parts = dict(kv.split('=') for kv in ln[4:].split())
             offered, written = int(parts['offered']), int(parts['written'])
-    return {'facts': out_prefix + '.facts', 'prov': out_prefix + '.prov', 'offered': offered, 'written': written}
+        elif ln.startswith('vh-sweep:'):
+            for kv in ln.split():
+                if kv.startswith('inputs='):
+                    swept += int(kv[7:])
+                elif kv.startswith('disagreements='):
+                    disagreements += int(kv[14:])
+    return {'facts': out_prefix + '.facts', 'prov': out_prefix + '.prov', 'offered': offered, 'written': written,
+            'swept': swept, 'disagreements': disagreements}
 
 
 def run_drivers(jobs, parallel=16):
@@ -64,6 +71,8 @@ class Merged(object):
     def add_file(self, tag, res):
         self.files[tag] = res
         self.total_offered += res.get('offered', 0)
+        self.total_swept = getattr(self, 'total_swept', 0) + res.get('swept', 0)
+        self.total_disagreements = getattr(self, 'total_disagreements', 0) + res.get('disagreements', 0)
         sha = _sha(res['facts'])
         if sha in self.classes:
             # byte-identical to an output already merged: same facts, same verdicts
